@@ -96,6 +96,14 @@ func init() {
 			}},
 		Rule{ID: "C08.f", Explain: "arithmetic that can fail: in the functions reachable from the verification entry points the result of (*big.Int).ModInverse / ModSqrt - nil when no inverse or root exists, which a prover can arrange (A = 0 makes the known part of Z non-invertible) - is used only after a nil test of that very result on every path; a call whose result is discarded and whose receiver is read afterwards is a finding of the group-element rules (C11.k, C12.m), not of this one.",
 			Run: func(P *Program, R *Report) { nilArithmeticRule(P, R, "C08.f") }},
+		Rule{ID: "C08.g", Explain: "no verification step's failure is dropped: in the functions reachable from the verification entry points the error a call returns has a use (a nil test, a return) - an error that is assigned and then overwritten (`err := check(); err = other()`) or shadowed lets the verifier go on with values that are not valid (nil after a failed inverse or decoder), which is where the panics and the wrong accepts come from. The two tabled exceptions are calls that cannot fail.",
+			Run: func(P *Program, R *Report) {
+				reach := map[*ssa.Function]bool{}
+				for _, f := range P.reachableFuncs(c08Entries(P)...) {
+					reach[f] = true
+				}
+				errorResultsUsedRule(P, R, "C08.g", func(fn *ssa.Function) bool { return reach[fn] }, nil, 20)
+			}},
 		Rule{ID: "C08.e", Explain: "ProofList.UnmarshalJSON yields only non-nil *ProofD / *ProofU elements or an error (discriminated on A then U).",
 			Run: func(P *Program, R *Report) {
 				fn := mustFunc(P, R, "C08.e", "gabi.(*ProofList).UnmarshalJSON")
@@ -398,4 +406,91 @@ func nilArithmeticRule(P *Program, R *Report, rule string) {
 		}
 	}
 	R.decide(rule, "sites:count", "uses of ModInverse/ModSqrt results on the verification paths were found (>= 2)", n >= 2, fmt.Sprintf("%d", n), "")
+}
+
+// errorResultsUsedRule: in the functions selected by scope, the error a call returns is looked at: the error
+// result is extracted and has a use (a nil test, a return, an argument) - an error that is assigned and then
+// overwritten or left behind is dropped, and the values that came with it are used although they are not valid
+// (nil integers after a failed generator or decoder). Explicitly blank results (`x, _ := f()`) are tabled.
+var errBlankOK = map[string]string{
+	"common.Close:invoke:io.Closer.Close":        "closing a reader after its content was read; nothing depends on the outcome",
+	"common.IntHashSha256:invoke:hash.Hash.Write": "hash.Hash.Write never returns an error (documented)",
+}
+
+// inFiles: scope by the file a function is written in (path suffixes relative to the module root).
+func inFiles(P *Program, suffixes ...string) func(fn *ssa.Function) bool {
+	return func(fn *ssa.Function) bool {
+		pos := P.Pos(fn.Pos())
+		if i := strings.LastIndex(pos, ":"); i >= 0 {
+			pos = pos[:i]
+		}
+		for _, s := range suffixes {
+			if pos == s || (strings.HasSuffix(s, "/") && strings.HasPrefix(pos, s)) {
+				return true
+			}
+		}
+		return false
+	}
+}
+
+func errorResultsUsedRule(P *Program, R *Report, rule string, scope func(fn *ssa.Function) bool, callee func(name string) bool, floor int) {
+	blankOK := errBlankOK
+	n := 0
+	for _, fn := range P.AllFuncs {
+		if fn.Blocks == nil || !inModuleFn(fn) || strings.HasSuffix(P.Pos(fn.Pos()), "_test.go") || !scope(fn) {
+			continue
+		}
+		k := 0
+		for _, ci := range callsIn(fn) {
+			c, ok := ci.(*ssa.Call)
+			if !ok {
+				continue
+			}
+			res := c.Call.Signature().Results()
+			ei := -1
+			for i := 0; i < res.Len(); i++ {
+				if isErrorType(res.At(i).Type()) {
+					ei = i
+				}
+			}
+			if ei < 0 || (callee != nil && !callee(calleeName(c))) {
+				continue
+			}
+			n++
+			used, extracted := false, false
+			if res.Len() == 1 {
+				extracted = true
+				for _, r := range referrersOf(c) {
+					if _, dbg := r.(*ssa.DebugRef); !dbg {
+						used = true
+					}
+				}
+			} else {
+				for _, r := range referrersOf(c) {
+					if ex, isEx := r.(*ssa.Extract); isEx && ex.Index == ei {
+						extracted = true
+						for _, rr := range referrersOf(ex) {
+							if _, dbg := rr.(*ssa.DebugRef); !dbg {
+								used = true
+							}
+						}
+					}
+				}
+			}
+			if used {
+				continue
+			}
+			k++
+			key := fmt.Sprintf("%s:error-of(%s)#%d", FuncKey(ownerOf(P, fn)), calleeName(c), k)
+			if !extracted || res.Len() == 1 {
+				if why, ok := blankOK[FuncKey(ownerOf(P, fn))+":"+calleeName(c)]; ok {
+					R.ok(rule, key, "the error is deliberately not looked at: "+why)
+					continue
+				}
+			}
+			R.seen(FuncKey(fn))
+			R.bad(rule, key, "the error returned by the call is looked at before it is overwritten or left behind", "error result of "+calleeName(c)+" has no use", P.Pos(c.Pos()))
+		}
+	}
+	R.decide(rule, "sites:count", fmt.Sprintf("calls with an error result were found (>= %d)", floor), n >= floor, fmt.Sprintf("%d", n), "")
 }
